@@ -312,7 +312,7 @@ func (t tMapPayload) Tags() ([]PointerTag, error) {
 // payload kinds handled at the top level of Process: untagged map, Taggable map, []string, *string, string
 func H_C09_toplevel() {
 	c := symEnv()
-	kind := symLen(0, 4)
+	kind := symLen(0, 5)
 	a, b := nondetString(), nondetString()
 	var e = newEvent(nil)
 	switch kind {
@@ -327,6 +327,9 @@ func H_C09_toplevel() {
 		e.Payload = &s
 	case 4:
 		e.Payload = a
+	case 5:
+		// a struct passed by value (its fields are not settable through reflection)
+		e.Payload = pLeaf{Sec: a, Untag: b}
 	}
 	out, err := c.ef.Process(context.Background(), e)
 	if c.o.allNone() || (c.w == nil && c.o.needsWrapper()) {
@@ -383,6 +386,13 @@ func H_C09_toplevel() {
 	case 4:
 		// a bare non-empty string payload cannot be rewritten in place: forwarding it would leak it
 		verifAssert(a == "", "C09.toplevel.bare-string-not-forwarded")
+	case 5:
+		p, ok := out.Payload.(pLeaf)
+		verifAssert(ok, "C10.toplevel.struct-value-type-preserved")
+		if ok {
+			c.checkLeaf(p.Sec, a, "secret", NoOperation, "C09.toplevel.struct-by-value.secret")
+			c.checkLeaf(p.Untag, b, "", NoOperation, "C09.toplevel.struct-by-value.untagged")
+		}
 	}
 	verifReach("C09.toplevel.ok")
 }
